@@ -16,10 +16,10 @@ LIM = 1 << 20
 INIT = -77
 
 
-def family():
+def family(types=('int', 'long', 'short')):
     src = [loops.PRELUDE, 'from cython.parallel import prange']
     ks = []
-    for tname in ('int', 'long', 'short'):
+    for tname in types:
         cty, bits, signed = arith.TYPEINFO[tname]
         for s in (1, 2, 3, -1, -2, -7):
             name = 'pr_%s_%s' % (tname, str(s).replace('-', 'm'))
@@ -131,7 +131,11 @@ def _init(B, K):
 def run(rep, tier, only=None):
     global _B, _K
     snapshot.activate()
-    src, ks = family()
+    global MAXTRIP
+    if tier == 'thorough':
+        C14.MAXTRIP = MAXTRIP = 10
+        os.environ.setdefault('VF_QTIMEOUT', '300')
+    src, ks = family(('int', 'long', 'short') if tier == 'quick' else ('int', 'long', 'short', 'ssize_t', 'longlong'))
     _B = harness.build_template('c37t', src)
     _K = {k.name: k for k in ks}
     names = [k.name for k in ks if not only or only in k.name]
